@@ -19,9 +19,14 @@ Ev == Trace[l]
 
 Line(e, st, d, now) ==
   IF d.st # "ok" THEN [i |-> e.i, ev |-> e.ev, st |-> d.st]
-  ELSE [i |-> e.i, ev |-> e.ev, st |-> "ok", wf |-> d.wf, strict |-> d.strict, key |-> d.t.key, alg |-> d.t.alg,
-        class |-> d.t.class, ttl |-> d.t.ttl,
-        digest |-> d.digest, mac |-> d.t.mac, timeok |-> InWindow(now, d.t.time, d.t.fudge)]
+  ELSE LET base == [i |-> e.i, ev |-> e.ev, st |-> "ok", wf |-> d.wf, strict |-> d.strict, key |-> d.t.key, alg |-> d.t.alg,
+                    class |-> d.t.class, ttl |-> d.t.ttl,
+                    digest |-> d.digest, mac |-> d.t.mac, timeok |-> InWindow(now, d.t.time, d.t.fudge)] IN
+       \* a signer stamps the message when it signs it (RFC 8945 4.2 "time signed"): not more than a second before the
+       \* moment the message was handed to it
+       IF Has(e, "handed") THEN [x \in DOMAIN base \cup {"fresh"} |->
+                                   IF x = "fresh" THEN SignedNotBefore(d.t, e.handed, 1) ELSE base[x]]
+       ELSE base
 
 WellFormed(e) == /\ Has(e, "i") /\ Has(e, "ev") /\ Has(e, "octets") /\ IsOctets(e.octets)
 
